@@ -1,4 +1,7 @@
+mod c15;
+
 fn main() {
-    eprintln!("no sub-commands yet");
-    std::process::exit(2);
+    vf_kit::dispatch! {
+        "c15" => c15::C15,
+    }
 }
